@@ -30,8 +30,8 @@ def gen_cards(rng, n):
             L.append("NICKNAME:" + rng.choice(NICKS))
         if rng.random() < 0.6:
             L.append("NOTE:" + rng.choice(NOTES))
-        for _ in range(rng.choice([0, 1, 1, 2])):
-            t = rng.choice(["INTERNET", "INTERNET,WORK", "INTERNET,HOME,PREF", "WORK"])
+        for _ in range(rng.choice([0, 1, 2, 2])):
+            t = rng.choice(["INTERNET", "INTERNET,WORK", "INTERNET,HOME,PREF", "WORK", "HOME"])
             grp = "item%d." % rng.randint(1, 2) if rng.random() < 0.2 else ""
             L.append(f"{grp}EMAIL;TYPE={t}:" + rng.choice(EMAILS))
         for _ in range(rng.choice([0, 1, 2])):
@@ -113,6 +113,18 @@ def gen_filter(rng, cards):
         feats.append("combine-" + (flt["test"] or "default-anyof"))
     elif rng.random() < 0.2:
         flt["test"] = rng.choice(["anyof", "allof"])
+    if n == 1 and rng.random() < 0.15:
+        # value condition and parameter condition in one prop-filter on a property that occurs
+        # several times: both must hold for the *same* instance (allof) / either (anyof)
+        name = rng.choice(["EMAIL", "TEL"])
+        vals = values_of(name)
+        v = rng.choice(vals)
+        k = max(2, len(v) // 3)
+        tm = {"text": rng.choice([v[:k], v[-k:], v]), "match_type": rng.choice(["contains", "starts-with", "ends-with", None]), "collation": None, "negate": False}
+        ptext = rng.choice(["WORK", "HOME", "INTERNET", "CELL", "PREF", "VOICE"])
+        t = rng.choice(["allof", "allof", "anyof", None])
+        flt = {"props": [{"name": name, "test": t, "text_matches": [tm], "params": [{"name": "TYPE", "text_match": {"text": ptext, "match_type": rng.choice(["equals", "contains"])}}]}]}
+        return flt, "prop-filter-value-and-param-condition/" + (t or "default-anyof")
     if n == 1 and rng.random() < 0.12 and pfs[0].get("text_matches"):
         # two tests inside one prop-filter: the prop-filter's own test attribute matters
         pf2, ft2 = one_prop_filter()
